@@ -6,6 +6,7 @@ import OFCore.GeneratedGuards
 `SetInput.holderSet` / `SetInput.setInput` transcribe `Holder._set` and the head of
 `Holder.set_input`; `OFCore.Generated.Guards` is regenerated from their source on every run.
 -/
+set_option linter.unusedSimpArgs false
 namespace OFCore
 open OFCore.Generated
 
@@ -17,8 +18,8 @@ theorem C16_tie_holder_set (var : VarSpec) (s : Store) (p : Period) (v : Vec) (h
   unfold holderSet toArray
   simp only [hl, ne_eq, not_true_eq_false, ↓reduceIte, bind, Except.bind]
   by_cases h : sz > 1
-  · cases hd : var.defUnit <;> cases pu <;> simp [Guards.holderSet_raises, Except.toBool, h]
-  · cases hd : var.defUnit <;> cases pu <;> simp [Guards.holderSet_raises, Except.toBool, h]
+  · cases hd : var.defUnit <;> cases pu <;> simp [Tie.consistencyGuards, Tie.holderSetGuards, Tie.addGuards, Tie.divideGuards, Tie.dated, Tie.enclosingName, Tie.denominatorName, Guards.holderSet_raises, Except.toBool, h]
+  · cases hd : var.defUnit <;> cases pu <;> simp [Tie.consistencyGuards, Tie.holderSetGuards, Tie.addGuards, Tie.divideGuards, Tie.dated, Tie.enclosingName, Tie.denominatorName, Guards.holderSet_raises, Except.toBool, h]
 
 /-- `Holder.set_input`: an ETERNITY period given for a dated variable is refused, exactly as the
     first guard of the code says; nothing else is refused at that point -/
